@@ -47,6 +47,7 @@ RULE = ("finite spaces (products of integer ranges / categorical / ordinal dimen
 
 F_REPLAY, F_PREFIX, F_FILTER, F_HASNEW = 801, 802, 803, 804
 STRAT = {"cl_min": 0, "cl_mean": 1, "cl_max": 2, "topk": 3, "boltzmann": 4, "qLCB": 5, "qLCBd": 6, "qUCB": 5, "qUCBd": 6}
+STRAT_NAME = {0: "cl_min", 1: "cl_mean", 2: "cl_max", 3: "topk", 4: "boltzmann", 5: "qLCB", 6: "qLCBd"}
 REJECT = {1: "rvs_calls", 2: "random_not_head_of_filtered", 3: "initial_point", 4: "no_next_x", 5: "next_x", 6: "initial_batch",
           7: "qlcb_size", 8: "qlcb_pick", 9: "cache", 10: "cl_size", 11: "cl_pick"}
 HYP = {0: "ok", 1: "exhausted", 2: "stale_next", 3: "cache_hit", 4: "one_shot", 5: "free_opt", 6: "initial_points"}
@@ -438,7 +439,8 @@ def run_opt(case):
                     if op[0] == "ask":
                         n, strat = op[1], op[2]
                         out = opt.ask() if n == 0 else opt.ask(n_points=n, strategy=strat)
-                        pending.extend([out] if n == 0 else out)
+                        if not (n > 1 and strat in ("topk", "boltzmann") and rec.events[-1][3] == []):
+                            pending.extend([out] if n == 0 else out)  # one-shot batches are points of the transformed space (F03): never told
                     elif op[0] == "tell":
                         k = min(op[1], len(pending))
                         if k == 0:
@@ -478,9 +480,19 @@ def check_opt(case):
     res["desc"] += ["hyp=" + HYP.get(h, str(h)) for h in sorted(set(hyps))] + ["branch=" + BRANCH.get(b, str(b)) for b in sorted(set(b for _, b in hb))]
     res["nontrivial"] = len(set(b for _, b in hb)) >= 4
     if not acc:
-        res["sig"]["where"] = REJECT.get(rcode, str(rcode))
-        return dict(res, ok=False, kind="corr", clause="reject:" + REJECT.get(rcode, str(rcode)),
-                    detail=dict(rejected_event=ridx, event=_short(events[ridx]), proposals=props, hyps=hyps, ops=case["ops"][: ridx + 2]))
+        rname = REJECT.get(rcode, str(rcode))
+        qlcb = any(e[0] == 0 and e[1] >= 2 and e[2] in (5, 6) for e in events[: ridx + 1])
+        res["sig"]["strategy"] = "qLCB" if qlcb else (STRAT_NAME.get(events[ridx][2], "?") if events[ridx][0] == 0 else "-")
+        detail = dict(rejected_event=ridx, event=_short(events[ridx]), proposals=props, hyps=hyps, ops=case["ops"][: ridx + 2])
+        if all(h == 0 for h in hyps) and events[ridx][0] == 0:
+            # every hypothesis held so far and the model cannot explain this ask: does it repeat a proposal while the space is not exhausted?
+            pre = [t for e in events[: ridx + 1] if e[0] == 0 for t in e[4]]
+            ok, first = model().call(F_PREFIX, [N if N is not None else len(pre), pre])
+            if not ok:
+                res["sig"]["where"] = "rejected:" + rname
+                return dict(res, ok=False, kind="oracle", clause="duplicate", detail=dict(detail, first_repeat_index=first))
+        res["sig"]["where"] = rname
+        return dict(res, ok=False, kind="corr", clause="reject:" + rname, detail=detail)
     # the theorem's conclusion on the longest prefix of the history whose hypothesis codes are all 0
     k = 0
     while k < len(hyps) and hyps[k] == 0:
@@ -502,11 +514,15 @@ def gen_opt(count):
                 r = rng.random()
                 if r < 0.45:
                     n = rng.choice([0, 0, 1, 2, 3, 4, 6])
-                    ops.append(["ask", n, rng.choice(["cl_min", "cl_mean", "cl_max", "qLCB", "qLCB", "cl_max"])])
+                    ops.append(["ask", n, rng.choice(["cl_min", "cl_mean", "cl_max", "qLCB", "qLCB", "cl_max", "qLCB", "topk", "boltzmann"])])
                 elif r < 0.9:
                     ops.append(["tell", rng.choice([1, 1, 2, 3, 8]), rng.choice([1, 1, 1, 2, 3]), rng.random() < 0.5])
                 else:
                     ops.append(["update"])
+            # one-shot batches (transformed points, F03 of C02) pollute sampled: only as the last call of a history
+            ops = [op for op in ops if not (op[0] == "ask" and op[2] in ("topk", "boltzmann"))]
+            if rng.random() < 0.15:
+                ops.append(["ask", rng.choice([2, 3]), rng.choice(["topk", "boltzmann"])])
             ninit = rng.randint(1, 5)
             inits = [[rng.randrange(8) for _ in dims] for _ in range(rng.choice([0, 0, 0, 1, 3]))]
             yield dict(dims=dims, sur=rng.choice(["ET", "ET", "ET", "DUMMY"]), seed=rng.randrange(10 ** 6), ninit=ninit, npts=max(100, 30 * N),
